@@ -69,3 +69,18 @@ Theorem C15_repair_needs_pod_lock :
   finished s = true /\ c_usage s <> c_record s.
 Proof. exact repair_needs_pod_lock. Qed.
 Print Assumptions C15_repair_needs_pod_lock.
+
+(* the hypothesis [fits] holds for the live set after ANY bookkeeping history
+   (C08) from a valid empty node: the stored usage passes Validate and has the
+   same lookups as the recomputed sum.  The one thing the invariants cannot give
+   is that the scheduler names NUMA nodes of the capacity (Validate never checks
+   it), which stays a hypothesis on the oracle values. *)
+From Verif Require Import Cpumem.BookFitsProofs.
+
+Theorem C15_live_set_fits : forall (info : node_info) (h : list op),
+  inv_valid (mkState info []) -> usage_zero (ni_usage info) -> Forall op_wf h ->
+  let s := run (mkState info []) h in
+  (forall w k, In w (st_live s) -> In k (keys (wr_numamem w)) -> In k (keys (nr_numamem (ni_cap info)))) ->
+  fits (ni_cap info) (st_live s).
+Proof. exact live_fits_after_history. Qed.
+Print Assumptions C15_live_set_fits.
